@@ -173,8 +173,13 @@ class Ctx:
               "coverage": cov, "assumptions": self.assumptions, "wall_s": round(wall, 2),
               "violations": len(self.violations)}
         os.makedirs(EVID, exist_ok=True)
-        with open(os.path.join(EVID, f"{self.prop}.json"), "w") as f:
-            json.dump(ev, f, indent=1, default=_json_default)
+        scratch = os.environ.get("VERIF_REPO") not in (None, "", "/repo")     # a run against a scratch copy (mutation tests)
+        if scratch:
+            os.makedirs(os.path.join(ROOT, ".work", "evidence-scratch"), exist_ok=True)
+        if not getattr(self, "replay_mode", False):
+            with open(os.path.join(ROOT, ".work", "evidence-scratch", f"{self.prop}.json") if scratch
+                      else os.path.join(EVID, f"{self.prop}.json"), "w") as f:
+                json.dump(ev, f, indent=1, default=_json_default)
         print(f"[{self.prop}] tier={self.tier} seed={self.seed} states={self.states} transitions={self.transitions} "
               f"evaluations={self.evaluations} traces={self.traces} violations={len(self.violations)} "
               f"known={sum(h['count'] for h in self.known_hits.values())} wall={wall:.1f}s")
